@@ -4,7 +4,7 @@
 (* wrappers around the repositories under one mutex (global sequence       *)
 (* number), is replayed against Sync.tla.  Worker identity is not logged:  *)
 (* any worker in the matching state may take the step.                     *)
-(*   last.call a     a worker took job a (jobs are taken in list order)    *)
+(*   last.call a     a worker that holds job a calls target.LastDate       *)
 (*   last.ret        target.LastDate returned (err, or the date)           *)
 (*   get.call since  source.GetSince was called with that start date       *)
 (*   get.ret         it failed, or returned n snapshots                    *)
@@ -26,8 +26,10 @@ Advance == l' = l + 1
 Matched ==
   /\ l <= Len(Log)
   /\ \E w \in Workers :
-       \/ /\ Ev.op = "last" /\ Ev.ph = "call" /\ queue # <<>> /\ Head(queue) = Ev.a
-          /\ Take(w) /\ seen' = [seen EXCEPT ![w] = "last"]
+       \* (taking a job from the channel is not observed: workers may reach the repository in another order than
+       \*  they took their jobs, so last.call is matched against a worker that already holds the job)
+       \/ /\ Ev.op = "last" /\ Ev.ph = "call" /\ wk[w].pc = "last" /\ wk[w].a = Ev.a /\ seen[w] = ""
+          /\ seen' = [seen EXCEPT ![w] = "last"] /\ UNCHANGED vars
        \/ /\ Ev.op = "last" /\ Ev.ph = "ret" /\ wk[w].pc = "last" /\ wk[w].a = Ev.a /\ seen[w] = "last"
           /\ (Ev.err <=> tgt[Ev.a] = <<>>)
           /\ (~Ev.err => LastOf(tgt[Ev.a]) = Ev.arg)
@@ -54,7 +56,7 @@ Matched ==
 \* steps the wrappers cannot see
 Silent ==
   /\ \/ \E w \in Workers : SetErr(w) \/ Finish(w)
-     \/ \E w \in Workers : (wk[w].pc = "take" /\ queue = <<>> /\ Take(w))
+     \/ \E w \in Workers : Take(w)
      \/ \E w \in Workers : (~Locked /\ wk[w].pc = "append" /\ wk[w].a \notin FailApp /\ seen[w] = "append" /\ AppendBegin(w))
      \/ EndRun
   /\ UNCHANGED <<sc, l, seen>>
